@@ -44,7 +44,8 @@ MODEL_SCOPE = ('modelled: Fiber/Fused/Edfa.to_json rounding (length, loss_coef, 
                'restore sequence of estimate_raman_gain. Not modelled: ROADM/Transceiver to_json (compared on the '
                'implementation only), element order of the JSON document, metadata, the Raman solver (estimated gains '
                'of each round are inputs), object identity/aliasing at run time (covered by the monitor only: two '
-               'designs sharing one equipment object)')
+               'designs sharing one equipment object). Topologies on which designed_network raises (open finding '
+               'raman-gain-before-estimate of C08, incl. gain-mode redesign of Edfa -> RamanFiber) are not generated')
 PARTIAL = ['export_rounding_partial: only the size of the rounding error of the exported gain/length/loss_coef is proved '
            '(<= 5e-7 of the exported unit); that the second design stays within the export rounding when it starts from '
            'the ROUNDED values (gain mode reads the rounded gain_target, split fibres have rounded lengths) is not '
@@ -52,6 +53,10 @@ PARTIAL = ['export_rounding_partial: only the size of the rounding error of the 
            'runtime aliasing (shared equipment objects, cached attributes on elements) is outside the chain model: '
            'design_deterministic is about the model function; the monitor designs the same input twice with one shared '
            'equipment object and compares the exports exactly']
+
+MANIFEST = {'level_note': 'proof on the chain model (redesign fixpoint exact for unrounded export, K1 counterexample, '
+                          'SimParams restore for every prior setting); partial for what lives in object identity and for the '
+                          'propagation of the 6-digit export rounding through the second design (monitor only)'}
 
 JTOL = 2e-6
 
@@ -63,6 +68,10 @@ def gen(rng, tier, widen=False):
     # keep the size moderate: several designs and propagations per case
     c['kind'] = 'redesign'
     c['rounds'] = rng.choice([1, 1, 2, 3])
+    if c.get('has_raman'):
+        # gain mode exports delta_p = None: the redesign of `Edfa(user delta_p) -> RamanFiber` would need the slope rule
+        # on the Raman span and raise (open finding raman-gain-before-estimate of C08): not generated here
+        c['span']['power_mode'] = True
     return c
 
 
@@ -118,9 +127,10 @@ def jcopy(x):
     return json.loads(json.dumps(x))
 
 
-def json_diffs(j1, j2, tol=JTOL):
+def json_diffs(j1, j2, tol=JTOL, rank=None):
     """differences between two exported networks: [(uid, path, v1, v2)], elements matched by uid, numbers compared to
-    the export rounding"""
+    the export rounding: every exported gain carries up to 5e-7 dB of rounding, and in gain mode these add up along the
+    OMS, so the tolerance of an element grows with the number of amplifiers before it in its OMS (`rank`)"""
     out = []
     e1 = {e['uid']: e for e in j1['elements']}
     e2 = {e['uid']: e for e in j2['elements']}
@@ -143,7 +153,7 @@ def json_diffs(j1, j2, tol=JTOL):
                     walk(x, y, path + str(i) + '.')
             elif isinstance(a, (int, float)) and isinstance(b, (int, float)) and not isinstance(a, bool) \
                     and not isinstance(b, bool):
-                if abs(a - b) > max(tol, 1e-9 * max(abs(a), abs(b))):
+                if abs(a - b) > max(tol * (1 + (rank or {}).get(u, 0)), 1e-9 * max(abs(a), abs(b))):
                     out.append((u, path.rstrip('.'), a, b))
             elif a != b:
                 out.append((u, path.rstrip('.'), a, b))
@@ -174,6 +184,11 @@ def oms_causes(case, eq, pre, post, p0, pref, pref_total):
         voa_auto = u_voa is None and sp['power_mode'] and bool(a.out_voa_auto)
         if voa_auto and pref_total + r['_delta_p'] > a.p_max + 1e-9:
             causes.setdefault('voa-rounding-above-pmax', idx)
+        # open finding gain-mode-in-voa-saturation (C09): in gain mode the code leaves in_voa out of the saturation
+        # estimate; an amplifier whose estimate sits at p_max is reduced again by every redesign
+        p_in = pref_total + off - loss - r['in_voa']
+        if (not sp['power_mode']) and r['in_voa'] and p_in + r['in_voa'] + r['effective_gain'] > a.p_max - 1e-9:
+            causes.setdefault('gain-mode-in-voa-saturation', idx)
         off = r['_delta_p'] - r['out_voa']
         loss = 0.0
         span = []
@@ -254,9 +269,13 @@ def run_redesign(case, drv):
     causes = [oms_causes(case, eq, pre[i], post1[i], source_power(case, ch, eq, pref), pref, pref_total)
               for i, ch in enumerate(chains)]
     owner = {}
+    rank = {}
     for i, recs in enumerate(post1):
+        n_amp = 0
         for k, r in enumerate(recs):
             owner[r['uid']] = (i, k)
+            n_amp += int(r['kind'] == 'edfa')
+            rank[r['uid']] = n_amp
     prop1 = propagate_all(case, eq, net, post_objs, ends)
 
     # ---- export / reload / redesign rounds -----------------------------------------------------------------------------------
@@ -278,7 +297,7 @@ def run_redesign(case, drv):
             break
         j2 = jcopy(network_to_json(net2))
         rounds_done += 1
-        diffs = json_diffs(jk, j2)
+        diffs = json_diffs(jk, j2, rank=rank)
         post2_objs, ends2 = G.chains_of(net2, case)
         post2 = [[G.record(n) for n in objs] if objs is not None else None for objs in post2_objs]
         all_post.append(post2)
@@ -387,7 +406,7 @@ def classify_diff(case, uid, path, v1, v2, owner, causes, postk):
             return 'K1-eol-redesign-drift'
         if path in ('operational.delta_p',) and not sp['power_mode']:
             return 'unlisted'
-    for cls in ('voa-rounding-above-pmax',):
+    for cls in ('voa-rounding-above-pmax', 'gain-mode-in-voa-saturation'):
         if cls in cs and k >= cs[cls] and numeric and path in ('operational.gain_target', 'operational.delta_p'):
             return cls
     return 'unlisted'
